@@ -86,6 +86,20 @@ class Ctx:
             self.add_witness(None, extract(mn), label, what)
         return False
 
+    def obligations(self, eng, pc, groups, extract, regions=None, label='', what='%s differs from the specification'):
+        """several named obligations on one path: one query for the conjunction, split only on failure"""
+        items = [(k, z3.And(v) if isinstance(v, (list, tuple)) else v) for k, v in groups.items()]
+        n = len(items)
+        m = eng.prove(pc, z3.And([v for _, v in items]))
+        if m is None:
+            eng.st.obligations += n - 1
+            eng.st.discharged += n - 1
+            return True
+        eng.st.obligations -= 1
+        for k, v in items:
+            self.obligation(eng, pc, v, extract, regions, label=label + ':' + k, what=what % k)
+        return False
+
     def add_witness(self, finding, witness, label='', what=''):
         key = json.dumps([finding, label], sort_keys=True)
         n = sum(1 for w in self.witnesses if w['key'] == key)
